@@ -216,6 +216,8 @@ impl FileManager {
         fields: Vec<Field>,
     ) -> Result<(), RuntimeError> {
         let file_info = self.try_get_file_info(&handle)?;
+        // FIELD is for RANDOM files only
+        file_info.ensure_random()?;
         let total_width: usize = fields.iter().map(|field| field.width).sum();
         if file_info.rec_len > 0 && total_width > file_info.rec_len {
             return Err(RuntimeError::FieldOverflow);
